@@ -160,13 +160,20 @@ def run_case(case, obs=None):
             rig.target.disk[1] = b"\x42" * 512
             s = rig.facade()
             out = []
+            kept = []            # every CheckCondition raised in this history, with what its target sent and what it printed then
             for i, (ck, stname) in enumerate(steps):
                 status = HSTAT[stname]
-                rig.target.script.append((status, SENSES["fixed18"][0]))
+                # each step answers with its own sense data, so that an error object re-using another error's state is visible
+                triple = (2 + i, 0x20 + i, i)
+                hs = fixed_sense(*triple) if i % 2 == 0 else desc_sense(*triple)
+                SENSES["hist"] = (hs, triple)
+                rig.target.script.append((status, hs))
                 fn = {"tur": s.testunitready, "read10": lambda: s.read10(1, 1), "inquiry": s.inquiry}[ck]
                 oc = attempt(fn)
                 cmd = oc[1] if oc[0] == "ret" else None
-                v = judge(tr, status, "fixed18", False, oc, cmd, "facade." + {"tur": "testunitready", "read10": "read10", "inquiry": "inquiry"}[ck])
+                v = judge(tr, status, "hist", False, oc, cmd, "facade." + {"tur": "testunitready", "read10": "read10", "inquiry": "inquiry"}[ck])
+                if status == 0x02 and oc[0] == "exc" and type(oc[1]).__name__ == "CheckCondition":
+                    kept.append((i, oc[1], triple, str(oc[1])))
                 if status == 0 and oc[0] == "ret":
                     if ck == "read10" and bytes(cmd.datain) != b"\x42" * 512:
                         v.append(("%s/history/good_result_wrong" % tr, "READ(10) after %r returned wrong data" % (steps[:i],)))
@@ -177,6 +184,14 @@ def run_case(case, obs=None):
                 out += [(k, "step %d of %r: %s" % (i, steps, w)) for k, w in v]
                 if obs is not None:
                     obs.append(snapshot(rig.dev, s))
+            for (i, e, triple, text) in kept:
+                try:
+                    now = (e.data["sense_key"], e.asc, e.ascq)
+                except Exception as ex:   # noqa: BLE001
+                    now = "unreadable (%s)" % type(ex).__name__
+                if now != triple or str(e) != text:
+                    out.append(("%s/history/earlier_error_changed" % tr, "history %r: the CheckCondition raised at step %d now reports %r / %r, its target sent %r and it printed %r"
+                                % (steps, i, now, str(e), triple, text)))
             return out
         finally:
             rig.close()
